@@ -759,6 +759,10 @@ func (m *connectUnaryMarshaler) Marshal(message any) *Error {
 	uncompressed := bytes.NewBuffer(data)
 	defer m.bufferPool.Put(uncompressed)
 	if len(data) < m.compressMinBytes || m.compressionPool == nil {
+		// The header map isn't ours (on clients, it's the caller's Request header,
+		// which may have been sent before): make sure that it doesn't claim that
+		// this uncompressed body is compressed.
+		m.header.Del(connectUnaryHeaderCompression)
 		return m.write(data)
 	}
 	compressed := m.bufferPool.Get()
